@@ -70,6 +70,9 @@ fn order_of(m: &Value) -> Order<ExchangeIndex, InstrumentIndex, OrderState<Asset
     }
 }
 
+/// arrival clock: `time_received` follows delivery order (later than any exchange time), as on a live feed
+static ARRIVAL: std::sync::atomic::AtomicI64 = std::sync::atomic::AtomicI64::new(1000);
+
 fn market_of(m: &Value) -> MarketEvent<InstrumentIndex, DataKind> {
     let (k, inst) = item_target(s(m, "item"));
     let (t, v) = (i(m, "t"), i(m, "v"));
@@ -83,7 +86,8 @@ fn market_of(m: &Value) -> MarketEvent<InstrumentIndex, DataKind> {
             best_ask: Some(Level::new(dec(v + 1), dec(1))),
         })
     };
-    MarketEvent { time_exchange: time(t), time_received: time(t), exchange: world2::EXCHANGES[world2::EX_OF[inst]], instrument: InstrumentIndex(inst), kind }
+    let arrived = ARRIVAL.fetch_add(1, std::sync::atomic::Ordering::Relaxed);
+    MarketEvent { time_exchange: time(t), time_received: time(arrived), exchange: world2::EXCHANGES[world2::EX_OF[inst]], instrument: InstrumentIndex(inst), kind }
 }
 
 /// One engine event for the message list (all-account lists of length > 1 become one full
@@ -161,6 +165,14 @@ fn project(st: &world2::State) -> Value {
     Value::Object(m)
 }
 
+fn cancel_request(item: &str) -> barter_execution::order::request::OrderRequestCancel {
+    let (_, inst) = item_target(item);
+    barter_execution::order::request::OrderRequestCancel {
+        key: OrderKey { exchange: ExchangeIndex(world2::EX_OF[inst]), instrument: InstrumentIndex(inst), strategy: strategy_id(), cid: ClientOrderId::new(item.trim_start_matches("ord_")) },
+        state: barter_execution::order::request::RequestCancel { id: None },
+    }
+}
+
 struct D {
     kit: Kit,
     out: Out,
@@ -171,6 +183,18 @@ impl D {
     fn reset(&mut self) {
         self.kit = Kit::new(TradingState::Disabled);
         self.out.line(&json!({"a": "Reset", "post": project(&self.kit.engine.state)}));
+    }
+    /// the engine records a cancel request for an order item (in-flight bookkeeping, not a report)
+    fn touch(&mut self, item: &str) {
+        use barter::engine::state::order::in_flight_recorder::InFlightRequestRecorder;
+        let req = cancel_request(item);
+        let st = &mut self.kit.engine.state;
+        let r = catch(|| st.record_in_flight_cancel(&req));
+        let line = match r {
+            Ok(()) => json!({"a": "Touch", "item": item, "post": project(&self.kit.engine.state)}),
+            Err(p) => json!({"a": "Touch", "item": item, "anomaly": format!("panic: {p}")}),
+        };
+        self.out.line(&line);
     }
     fn deliver(&mut self, ms: &[Value]) {
         for (applied, ev) in events_of(ms) {
@@ -205,7 +229,15 @@ fn main() {
             for scn in read_ndjson(args.req("scenarios")) {
                 d.reset();
                 for ms in scn["steps"].as_array().expect("steps") {
-                    d.deliver(ms.as_array().expect("message list"));
+                    let ms = ms.as_array().expect("message list");
+                    // a message with t = 0 is the spec's Touch (cancel request recorded); only orders have one
+                    if ms.len() == 1 && i(&ms[0], "t") == 0 {
+                        if s(&ms[0], "item").starts_with("ord_") {
+                            d.touch(s(&ms[0], "item"));
+                        }
+                    } else {
+                        d.deliver(ms);
+                    }
                     steps += 1;
                 }
             }
@@ -217,6 +249,11 @@ fn main() {
             while steps < n {
                 if steps % 50 == 0 {
                     d.reset();
+                }
+                if rng.random_range(0..8) == 0 {
+                    d.touch(if rng.random_bool(0.5) { "ord_c1" } else { "ord_c2" });
+                    steps += 1;
+                    continue;
                 }
                 let msg = |rng: &mut rand::rngs::StdRng| json!({"item": ITEMS[rng.random_range(0..ITEMS.len())], "t": rng.random_range(1..=tmax), "v": rng.random_range(1..=9)});
                 let mut ms = vec![msg(&mut rng)];
